@@ -662,6 +662,7 @@ func plan(tier string, seed int64) []sup.Batch {
 		}
 		bs = append(bs, sup.Chunk("rnd-"+k, "paths", nrand, nrand, 1, map[string]any{"config": k, "maxseg": maxSeg, "random": 1})...)
 	}
+	bs = append(bs, sup.Batch{Name: "symlink", Kind: "symlink", From: 0, To: 8, Procs: 1})
 	return bs
 }
 
@@ -669,13 +670,19 @@ func main() {
 	sup.Main(sup.Prop{
 		ID:    "C03",
 		Level: "exploration",
-		Rule:  "for each of 15 view configurations (memory/disk root and child, depth-3 views, encrypted, read-only, sub-path, cache child/root/depth-3) every path of ≤ N segments over {x, jail, ., .., \"\"} with and without leading '/' (N=3 quick, 5 thorough; random longer ones beyond) is given to all 16 operations (copy operations: hostile source, hostile destination, both); after every call the tree outside the view root (walked through the underlying root, host directory for disk, after Commit for caches) must be byte-identical, no outside token may be returned, no outside-only name listed, no positive answer for an escaping path unless the clamped path explains it, no panic. distinct = (configuration, path block); non-trivial = block contains escaping paths",
+		Rule:  "for each of 15 view configurations (memory/disk root and child, depth-3 views, encrypted, read-only, sub-path, cache child/root/depth-3) every path of ≤ N segments over {x, jail, ., .., \"\"} with and without leading '/' (N=3 quick, 5 thorough; random longer ones beyond) is given to all 16 operations (copy operations: hostile source, hostile destination, both); after every call the tree outside the view root (walked through the underlying root, host directory for disk, after Commit for caches) must be byte-identical, no outside token may be returned, no outside-only name listed, no positive answer for an escaping path unless the clamped path explains it, no panic; symlink: disk views whose tree holds a relative link that resolves inside the view – its directory is copied to another depth through the view and the copy is read, written, queried and removed: nothing outside is delivered or changed. distinct = (configuration, path block); non-trivial = block contains escaping paths",
 		Assumptions: []string{
 			"a path that would climb above the root may be rejected or resolved inside the root (clamped); both are accepted",
 			"removing or replacing the view's own root directory through the view is not counted as reaching outside (the statement speaks of what is not under the root)",
 		},
 		Plan: plan,
-		Run:  runPaths,
+		Run: func(c *sup.Child, b sup.Batch) {
+			if b.Kind == "symlink" {
+				runSymlink(c, b)
+				return
+			}
+			runPaths(c, b)
+		},
 		Finish: func(t *sup.Totals) string {
 			if t.Obs["calls_with_escaping_path"] < 1000 {
 				return "too few escaping-path calls observed"
